@@ -185,7 +185,91 @@ func TestC14(t *testing.T) {
 			r.Count("race_pass_skipped_no_binary", 1)
 		}
 	}
+	liveClock(r, tmp)
 	r.MinNontrivial(r.N(200, 2000))
+}
+
+// liveClock records the wall-clock-tied scenario (see BuildLiveScenario), replays it at once and again after the
+// wall clock has passed the live block's time, in this process and in a fresh one. Code that reads the process
+// clock inside block execution makes the late replays differ from the recording.
+func liveClock(r *core.Run, tmp string) {
+	cid := "live-clock/0"
+	if !r.Want(cid) {
+		return
+	}
+	var sc *Scenario
+	var c time.Time
+	sensitive := false
+	for attempt := 0; attempt < 4 && !sensitive; attempt++ {
+		var left time.Duration
+		var err error
+		sc, c, left, err = BuildLiveScenario(r.Rng(cid).Int63(), liveAhead<<uint(attempt))
+		if err != nil {
+			r.Inconclusive("%s: scenario construction failed: %v", cid, err)
+			return
+		}
+		sensitive = left > 0
+		if !sensitive {
+			r.Count("live_recording_too_slow_retried", 1)
+		}
+	}
+	for _, f := range sc.Failed {
+		r.Count("live_steps_not_as_scripted", 1)
+		fmt.Println("live step not as scripted:", f)
+	}
+	r.Set("coverage_live_clock", sc.Coverage)
+	if !sensitive {
+		// the recording did not finish before the wall clock reached the live block's time (overloaded machine):
+		// the comparison below is still sound but would not notice a wall-clock dependence
+		r.Count("live_segment_insensitive_this_run", 1)
+	}
+	tapePath := filepath.Join(tmp, "tape-live.json")
+	if err := WriteTape(tapePath, sc.A, sc.A.Name); err != nil {
+		r.Inconclusive("cannot write tape: %v", err)
+		return
+	}
+	tf, err := ReadTape(tapePath)
+	if err != nil {
+		r.Inconclusive("cannot read tape: %v", err)
+		return
+	}
+	_, early, err := Replay(tf, nil)
+	if err != nil {
+		r.Inconclusive("live: early replay failed: %v", err)
+		return
+	}
+	if d := time.Until(c.Add(1500 * time.Millisecond)); d > 0 {
+		time.Sleep(d)
+	}
+	_, late, err := Replay(tf, nil)
+	if err != nil {
+		r.Inconclusive("live: late replay failed: %v", err)
+		return
+	}
+	r.Count("live_blocks", len(tf.Blocks))
+	spec := envSpec{name: "live-clock-replay-after-wall-clock-passed-block-time"}
+	before := r.Violations()
+	compare(r, cid, spec, early, late, tf)
+	r.Count("replicas_compared", 1)
+	if r.Violations() == before {
+		if got, want := late[len(late)-1].AppHash, fmt.Sprintf("%x", sc.FinalHash); got != want {
+			r.Eval("live/recording-vs-late-replay", true)
+			r.Violation(cid, "divergence/live-clock/recording-differs-from-replay-after-wall-clock-passed-block-time", map[string]interface{}{
+				"recorded_final_app_hash": want, "late_replay_final_app_hash": got, "early_replay_final_app_hash": early[len(early)-1].AppHash,
+				"live_block_time": c.String(), "scripted_steps_that_deviated_while_recording": sc.Failed,
+				"meaning": "the same request stream gave another state when executed before / after the wall clock passed the block time: block execution consults the process clock"})
+		} else {
+			r.Eval("live/recording-vs-late-replay", true)
+		}
+	}
+	fps, out, err := runReplica(tapePath, filepath.Join(tmp, "out-live.jsonl"), envSpec{name: "live-clock-fresh-process", env: map[string]string{"GOMAXPROCS": "2"}})
+	if err != nil {
+		r.Violation(cid, "replica-died/live-clock-fresh-process", map[string]interface{}{"err": err.Error(), "output_tail": tailStr(out, 1500)})
+		return
+	}
+	compare(r, cid, envSpec{name: "live-clock-fresh-process"}, late, fps, tf)
+	r.Count("replicas_compared", 1)
+	r.Sample(map[string]interface{}{"scenario": cid, "live_block_time": c.String(), "sensitive": sensitive, "blocks": len(tf.Blocks), "final_app_hash": late[len(late)-1].AppHash, "steps": sc.Coverage})
 }
 
 func tailStr(s string, n int) string {
